@@ -8,6 +8,8 @@ use std::io::{BufWriter, Write};
 
 pub struct G {
     pub r: Rng,
+    /// generate no negation context (not, not(k), of(.., 0))
+    pub positive: bool,
     /// probability (percent) of deliberately producing constructs that trigger a known finding
     pub kf_pct: usize,
 }
@@ -34,7 +36,7 @@ pub fn obj(kv: Vec<(String, J)>) -> J {
 
 impl G {
     pub fn new(seed: u64) -> G {
-        G { r: Rng::new(seed), kf_pct: 3 }
+        G { r: Rng::new(seed), kf_pct: 3, positive: false }
     }
 
     pub fn word(&mut self, max: usize, small: bool) -> String {
@@ -259,7 +261,10 @@ impl G {
             if self.r.chance(1, 2) {
                 ("all", 0, json!({"t":"list","vs":vs}))
             } else {
-                let c = self.r.below(n + 2) as u64;
+                let mut c = self.r.below(n + 2) as u64;
+                if self.positive && c == 0 {
+                    c = 1;
+                }
                 ("of", c, json!({"t":"list","vs":vs}))
             }
         } else if roll < 88 {
@@ -270,7 +275,7 @@ impl G {
                 let class = *self.r.pick(&["str", "str", "num", "bool", "null"]);
                 self.scalar(class, "none")
             };
-            ("not", 0, v)
+            (if self.positive { "none" } else { "not" }, 0, v)
         } else if roll < 92 {
             let v = if self.r.chance(1, 4) {
                 let n = 1 + self.r.below(3);
@@ -332,7 +337,8 @@ impl G {
                 0 if !quantifiable.is_empty() => { let q = self.r.pick(quantifiable).clone(); json!({"t":"all","n":cps(&q)}) },
                 1 if !quantifiable.is_empty() => {
                     let q = self.r.pick(quantifiable).clone();
-                    json!({"t":"of","n":cps(&q),"c":self.r.below(4)})
+                    let c = if self.positive { 1 + self.r.below(3) } else { self.r.below(4) };
+                    json!({"t":"of","n":cps(&q),"c":c})
                 }
                 2 => {
                     let kind = *self.r.pick(&["int", "int", "flt", "str"]);
@@ -357,7 +363,7 @@ impl G {
             json!({"t":"and","l":self.cond(names, quantifiable, depth - 1),"r":self.cond(names, quantifiable, depth - 1)})
         } else if roll < 80 {
             json!({"t":"or","l":self.cond(names, quantifiable, depth - 1),"r":self.cond(names, quantifiable, depth - 1)})
-        } else if roll < 95 {
+        } else if roll < 95 && !self.positive {
             json!({"t":"not","e":self.cond(names, quantifiable, depth - 1)})
         } else {
             json!({"t":"par","e":self.cond(names, quantifiable, depth - 1)})
@@ -377,7 +383,7 @@ impl G {
         let mut quantifiable = vec![];
         for n in &names {
             let b = self.body(2);
-            if !ident_list_batch(&b) || self.r.chance(self.kf_pct, 100) {
+            if !(ident_list_batch(&b) || seq_quant_trigger(&b)) || self.r.chance(self.kf_pct, 100) {
                 quantifiable.push(n.clone());
             }
             ids.push(json!([cps(n), b]));
@@ -467,6 +473,58 @@ impl G {
 
     /// a document for `src`: every field the rule names gets a value related to the rule's own
     /// constants (or is left out), plus unrelated fields
+    /// a value of the kind the rule's own predicates on this field expect (so nothing is missing
+    /// or ill-kinded): string for patterns, number of the same kind for numbers, ...
+    fn kind_value(&mut self, hints: &[J]) -> J {
+        if hints.is_empty() {
+            return s_node(&self.word(3, true));
+        }
+        let h = self.r.pick(hints).clone();
+        match h["t"].as_str().unwrap_or("") {
+            "pat" => s_node(&self.near(&h)),
+            "num" | "cmp" => {
+                let t = num_text(&h["n"]).unwrap_or_default();
+                if h["n"]["k"] == "i" {
+                    match self.r.below(3) {
+                        0 => i_node(&t),
+                        _ => {
+                            let v: i128 = t.parse().unwrap_or(0);
+                            let w = v + [1i128, -1, 2][self.r.below(3)];
+                            if w >= i64::MIN as i128 && w <= i64::MAX as i128 { i_node(&w.to_string()) } else { i_node(&t) }
+                        }
+                    }
+                } else if self.r.chance(1, 2) {
+                    f_node(&t)
+                } else {
+                    f_node(&self.flt_text())
+                }
+            }
+            "bool" => json!({"t":"B","b":self.r.chance(1, 2)}),
+            "null" => {
+                if self.r.chance(1, 2) { json!({"t":"N"}) } else { s_node("x") }
+            }
+            _ => s_node(&self.word(3, true)),
+        }
+    }
+
+    /// a document in which every field the rule names is present with a suitable kind
+    pub fn doc_complete(&mut self, src: &J) -> J {
+        let mut hints: std::collections::BTreeMap<String, Vec<J>> = Default::default();
+        for pair in src["ids"].as_array().unwrap_or(&vec![]) {
+            collect_hints(&pair[1], "", &mut hints);
+        }
+        collect_cond_fields(&src["cond"], &mut hints);
+        let mut root: Vec<(String, J)> = vec![];
+        // longest paths first so that objects are created before a scalar could take their place
+        let mut paths: Vec<&String> = hints.keys().collect();
+        paths.sort_by_key(|p| std::cmp::Reverse(p.matches('.').count()));
+        for path in paths {
+            let v = self.kind_value(&hints[path]);
+            insert_path(&mut root, path, v);
+        }
+        obj_from(root)
+    }
+
     pub fn doc_for(&mut self, src: &J) -> J {
         let mut hints: std::collections::BTreeMap<String, Vec<J>> = Default::default();
         for pair in src["ids"].as_array().unwrap_or(&vec![]) {
@@ -632,6 +690,28 @@ fn avoid_partial_batch(vs: Vec<J>) -> Vec<J> {
     vs.into_iter().filter(|v| batch_class(v) == best).collect()
 }
 
+/// triggers of the shake_flatten_seq / shake_merge_batch known findings
+fn seq_quant_trigger(b: &J) -> bool {
+    if b["t"] != "seq" {
+        return false;
+    }
+    let ms = b["ms"].as_array().unwrap();
+    if ms.len() == 1 {
+        return true;
+    }
+    let mut keys = std::collections::HashSet::new();
+    for m in ms {
+        let es = m["es"].as_array().unwrap();
+        if es.len() == 1 && es[0]["v"]["t"] == "pat" && batch_class(&es[0]["v"]) != "solo" {
+            let k = format!("{}|{}|{}", es[0]["f"], es[0]["m"], batch_class(&es[0]["v"]));
+            if !keys.insert(k) {
+                return true;
+            }
+        }
+    }
+    false
+}
+
 /// trigger of the ident_list_batch known finding
 fn ident_list_batch(b: &J) -> bool {
     if b["t"] != "map" {
@@ -652,9 +732,14 @@ pub fn gen_cases(topic: &str, seed: u64, n: usize, path: &str) -> Result<(), Str
     let mut g = G::new(seed ^ topic.bytes().fold(0u64, |a, b| a.wrapping_mul(131).wrapping_add(b as u64)));
     let mut w = BufWriter::new(File::create(path).map_err(|e| e.to_string())?);
     for _ in 0..n {
+        let mode = g.r.below(10);
+        g.positive = matches!(topic, "opt" | "perm") && mode < 4;
         let src = g.source(3);
         let nd = 3 + g.r.below(4);
-        let docs: Vec<J> = (0..nd).map(|_| g.doc_for(&src)).collect();
+        let complete = matches!(topic, "opt" | "perm") && mode >= 4 && mode < 9;
+        let docs: Vec<J> = (0..nd)
+            .map(|i| if complete && i > 0 { g.doc_complete(&src) } else { g.doc_for(&src) })
+            .collect();
         let all17 = J::Array(crate::run::all_sws());
         let some_sws = {
             let all = crate::run::all_sws();
